@@ -3,6 +3,11 @@ import CashewsVerif.Model.Decor.Common
 Model of `cashews/decorators/cache/hit.py` (`hit`, `_get_and_save`) as reached through
 `Cache.hit(ttl, cache_hits, update_after=…, background=…)`.
 
+Order in time: `_wrap` reads `cached` and bumps the counter when the call begins; `_get_and_save` runs the function (`d`
+ticks when it runs inside the call) and deletes the counter / stores the result afterwards; a foreground refresh is
+awaited and then the call returns the `cached` it read before (the sentence about hit bounds the number of serves, not
+their age).
+
 Mirrored, not judged: with `background=False` the exception of a failing refresh propagates out of
 the call (`await task`) instead of the stored result being returned; the property's sentence about
 `hit` bounds the number of serves and says when a refresh starts, it does not promise an answer.
@@ -34,17 +39,18 @@ def afterStoreFailure (t : TtlMap) : Stage → TtlMap
   | .pre => t
   | .set => t.remove kAux
 
-/-- `return await _get_and_save(*call_args)` in the foreground -/
+/-- `return await _get_and_save(*call_args)` in the foreground, from the moment the function has finished (`t1`: the
+store with the counter bumped, its clock at that moment) -/
 def execute (c : Cfg) (s : St) (t1 : TtlMap) (o : Outcome) : St × CallOut :=
   let id := s.nexec
   match o with
-  | .ok => ({ s with t := save c t1 id, nexec := id + 1 }, ⟨.fresh s.t.now id, true, false⟩)
-  | .rejected => ({ s with t := t1, nexec := id + 1 }, ⟨.fresh s.t.now id, true, false⟩)
+  | .ok => ({ s with t := save c t1 id, nexec := id + 1 }, ⟨.fresh t1.now id, true, false⟩)
+  | .rejected => ({ s with t := t1, nexec := id + 1 }, ⟨.fresh t1.now id, true, false⟩)
   | .storeFails st l => ({ s with t := afterStoreFailure t1 st, nexec := id + 1 }, ⟨.storeErr l, true, false⟩)
   | _ => ({ s with t := t1, nexec := id + 1 }, ⟨.raised o, true, false⟩)
 
 /-- `_wrap` -/
-def call (c : Cfg) (s : St) (o : Outcome) : St × CallOut :=
+def call (c : Cfg) (s : St) (o : Outcome) (d : Nat) : St × CallOut :=
   -- `cached, hits = await asyncio.gather(backend.get(key, default=_empty), backend.incr(key + ":counter", expire=ttl))`
   let cached := cached2 s.t
   match s.t.incr kAux 1 (some c.ttl) with
@@ -59,15 +65,18 @@ def call (c : Cfg) (s : St) (o : Outcome) : St × CallOut :=
           if c.bg then
             ({ t := t1, nexec := id + 1, inflight := s.inflight ++ [id] }, ⟨.stored stamp id0, false, true⟩)
           else
-            -- `if not background: await task`  (the exception of a failing refresh propagates)
+            -- `if not background: await task`  (the refresh takes `d` ticks; the exception of a failing refresh
+            -- propagates); then `return return_or_raise(cached)`: what was read before the refresh
+            let t2 := advance t1 d
             match o with
-            | .ok => ({ s with t := save c t1 id, nexec := id + 1 }, ⟨.stored stamp id0, true, true⟩)
-            | .rejected => ({ s with t := t1, nexec := id + 1 }, ⟨.stored stamp id0, true, true⟩)
-            | .storeFails st l => ({ s with t := afterStoreFailure t1 st, nexec := id + 1 }, ⟨.storeErr l, true, true⟩)
-            | _ => ({ s with t := t1, nexec := id + 1 }, ⟨.raised o, true, true⟩)
+            | .ok => ({ s with t := save c t2 id, nexec := id + 1 }, ⟨.stored stamp id0, true, true⟩)
+            | .rejected => ({ s with t := t2, nexec := id + 1 }, ⟨.stored stamp id0, true, true⟩)
+            | .storeFails st l => ({ s with t := afterStoreFailure t2 st, nexec := id + 1 }, ⟨.storeErr l, true, true⟩)
+            | _ => ({ s with t := t2, nexec := id + 1 }, ⟨.raised o, true, true⟩)
         else ({ s with t := t1 }, ⟨.stored stamp id0, false, false⟩)
-      else execute c s t1 o
-    | none => execute c s t1 o
+      -- `return await _get_and_save(*call_args)`: the function takes `d` ticks
+      else execute c s (advance t1 d) o
+    | none => execute c s (advance t1 d) o
   | (t1, _) => ({ s with t := t1 }, ⟨.broken, false, false⟩)    -- `int(counter)` raised: unreachable
 
 /-- a background `_get_and_save` completes -/
@@ -82,7 +91,7 @@ def done (c : Cfg) (s : St) (i : Nat) (o : Outcome) : St × DoneRes :=
     | _ => ({ s with inflight := s.inflight.eraseIdx i }, .failed)
 
 def step (c : Cfg) (s : St) : DOp → St × Ans
-  | .call o => let r := call c s o; (r.1, .call r.2)
+  | .call o d => let r := call c s o d; (r.1, .call r.2)
   | .adv dt => ({ s with t := advance s.t dt }, .ok)
   | .done i o => let r := done c s i o; (r.1, .done r.2)
 
@@ -96,7 +105,7 @@ def isStored : Res → Bool
 the function, or a completed background refresh, whose scripted outcome reaches the set — the result was
 stored, or the backend refused it -/
 def reachedSet : DOp → Ans → Bool
-  | .call o, .call out => out.exec && o.reachesSet
+  | .call o _, .call out => out.exec && o.reachesSet
   | .done _ o, .done r => r != .noop && o.reachesSet
   | _, _ => false
 
